@@ -405,6 +405,27 @@ def tlv_spans(data: bytes, pos=0, end=None, depth=0, out=None):
     return out
 
 
+def _resize(seed, tp, lp, ll, cp, cl, new_content):
+    """replace the content of the TLV at tp and fix up the lengths of all enclosing TLVs"""
+    from .ref import der as rder
+    delta = None
+    out = seed[:lp] + rder.enc_len(len(new_content)) + new_content + seed[cp + cl :]
+    # re-encode enclosing lengths by rebuilding from the outside in (valid seeds only)
+    spans = [sp for sp in tlv_spans(seed) if sp[3] <= tp and sp[3] + sp[4] >= cp + cl and sp[0] != tp]
+    # process innermost enclosing first
+    cur_seed = seed
+    cur = (tp, lp, ll, cp, cl)
+    content = new_content
+    piece_start, piece_end = tp, cp + cl
+    piece = seed[tp:tp + 1] + rder.enc_len(len(new_content)) + new_content
+    for sp in sorted(spans, key=lambda z: -z[0]):
+        stp, slp, sll, scp, scl = sp
+        inner = seed[scp:piece_start] + piece + seed[piece_end:scp + scl]
+        piece = seed[stp:stp + 1] + rder.enc_len(len(inner)) + inner
+        piece_start, piece_end = stp, scp + scl
+    return seed[:piece_start] + piece + seed[piece_end:]
+
+
 def length_mutations(seed: bytes):
     """replace every length field by wrong / non-minimal variants"""
     from .ref import der as rder
@@ -436,10 +457,16 @@ def length_mutations(seed: bytes):
             body = seed[cp : cp + cl]
             yield "int-pad", seed[:lp] + rder.enc_len(cl + 1) + b"\x00" + body + seed[cp + cl :]
             yield "int-neg", seed[:cp] + bytes([body[0] | 0x80]) + seed[cp + 1 :]
+            # a canonical INTEGER of thousands of decimal digits (cannot be printed in decimal by Python >= 3.11)
+            huge = b"\x01" + bytes(2100)
+            yield "int-huge", _resize(seed, tp, lp, ll, cp, cl, huge)
         if seed[tp] == 0x06 and cl:
             body = seed[cp : cp + cl]
             for j in range(cl):
                 yield "oid-pad", seed[:lp] + rder.enc_len(cl + 1) + body[:j] + b"\x80" + body[j:] + seed[cp + cl :]
+            # a well-formed OID whose last arc has thousands of decimal digits
+            yield "oid-huge-arc", _resize(seed, tp, lp, ll, cp, cl, body + b"\xff" * 2100 + b"\x7f")
+            yield "oid-huge-first", _resize(seed, tp, lp, ll, cp, cl, b"\xff" * 2100 + b"\x7f" + body)
         if seed[tp] == 0x03 and cl:
             for u in range(1, 9):
                 yield "bits-unused", seed[:cp] + bytes([u]) + seed[cp + 1 :]
